@@ -101,6 +101,8 @@ def run_build_case(rng, res: CaseResult, props, feat=None, inject=None, extra_st
     if inject and ref.error is None:
         res.count('inject_ineffective')     # the mutated class is not instantiated by this root (excluded / other part): a valid spec
         injected = None
+    elif inject:
+        res.count('injected_' + inject)
     steps = [{'op': 'build', 'chain': 'c0', 'root': root, 'parameter_mode': parameter_mode}, {'op': 'inspect', 'chain': 'c0', 'what': 'deps'}]
     steps += extra_steps or []
     with Lab(spec) as lab:
